@@ -30,6 +30,8 @@ type directive struct {
 	Pkg  string
 	Line int
 	Gen  string // gombok | template_gen | monad_gen
+	// Fixture: the directive belongs to a fixture package of /verif, not to the repository
+	Fixture bool
 }
 
 // repoRoot is /repo; VERIF_REPO overrides it only for trying seeded changes in scratch worktrees.
@@ -148,6 +150,81 @@ func generatedFiles(root string) (map[string]bool, error) {
 	return out, err
 }
 
+// fixtures: packages kept in /verif/harness/c13fixtures/<name>/*.go.txt that carry generator directives with many
+// fields / delegates / instances. They are copied into every pristine scratch copy as test/internal/<name> (never
+// into the repository); there is no committed output for them, so their oracle is: identical output for every seed,
+// every pass and every route.
+const fixtureRoot = "test/internal"
+
+func fixtureNames() []string {
+	ents, _ := os.ReadDir(filepath.Join(verifDir(), "harness", "c13fixtures"))
+	var out []string
+	for _, e := range ents {
+		if e.IsDir() {
+			out = append(out, e.Name())
+		}
+	}
+	sort.Strings(out)
+	return out
+}
+
+func installFixtures(B string) error {
+	for _, name := range fixtureNames() {
+		dst := filepath.Join(B, fixtureRoot, name)
+		if err := os.MkdirAll(dst, 0o755); err != nil {
+			return err
+		}
+		files, _ := filepath.Glob(filepath.Join(verifDir(), "harness", "c13fixtures", name, "*.go.txt"))
+		for _, f := range files {
+			b, err := os.ReadFile(f)
+			if err != nil {
+				return err
+			}
+			if err := os.WriteFile(filepath.Join(dst, strings.TrimSuffix(filepath.Base(f), ".txt")), b, 0o644); err != nil {
+				return err
+			}
+		}
+	}
+	return nil
+}
+
+func fixtureDirectives() []directive {
+	var out []directive
+	for _, name := range fixtureNames() {
+		files, _ := filepath.Glob(filepath.Join(verifDir(), "harness", "c13fixtures", name, "*.go.txt"))
+		sort.Strings(files)
+		for _, f := range files {
+			b, _ := os.ReadFile(f)
+			pkg, ln := "", 0
+			for _, t := range strings.Split(string(b), "\n") {
+				ln++
+				if strings.HasPrefix(t, "package ") && pkg == "" {
+					pkg = strings.Fields(t)[1]
+				}
+				if strings.HasPrefix(t, "//go:generate go run github.com/csgura/fp/") {
+					out = append(out, directive{Dir: filepath.Join(fixtureRoot, name), File: strings.TrimSuffix(filepath.Base(f), ".txt"), Pkg: pkg, Line: ln,
+						Gen: filepath.Base(strings.Fields(t)[3]), Fixture: true})
+				}
+			}
+		}
+	}
+	return out
+}
+
+// fixtureOutput is the concatenation of every generated file below the fixture directories of B.
+func fixtureOutput(B string) string {
+	var sb strings.Builder
+	for _, name := range fixtureNames() {
+		files, _ := filepath.Glob(filepath.Join(B, fixtureRoot, name, "*.go"))
+		sort.Strings(files)
+		for _, f := range files {
+			b, _ := os.ReadFile(f)
+			fmt.Fprintf(&sb, "==== %s/%s\n%s", name, filepath.Base(f), b)
+		}
+	}
+	return sb.String()
+}
+
 type c13seedResult struct {
 	seed      uint64
 	procs     int
@@ -158,6 +235,8 @@ type c13seedResult struct {
 	genErr    string
 	permuted  int
 	iterTotal int
+	fixOut    []string // fixture output after each pass
+	viaLink   int      // chunks whose generators ran in a checkout reached through a symbolic link
 }
 
 // c13OneSeed regenerates the whole repository under one seed. The directives are split into chunks by
@@ -197,6 +276,24 @@ func c13OneSeed(scratch, binDir string, dirs []directive, seed uint64, idx int, 
 				fail(err.Error())
 				return
 			}
+			if err := installFixtures(B); err != nil {
+				fail(err.Error())
+				return
+			}
+			// route fault: for every other (seed, chunk) the generators are started in the same checkout reached
+			// through a symbolic link (a symlinked GOPATH / home directory): logical and physical paths then differ
+			route := B
+			if (int(seed>>7)+c)%2 == 1 {
+				link := B + "_link"
+				os.Remove(link)
+				if err := os.Symlink(B, link); err == nil {
+					defer os.Remove(link)
+					route = link
+					mu.Lock()
+					res.viaLink++
+					mu.Unlock()
+				}
+			}
 			filepath.Walk(B, func(p string, info os.FileInfo, err error) error {
 				if err == nil && !info.IsDir() {
 					os.Chtimes(p, old, old)
@@ -212,8 +309,9 @@ func c13OneSeed(scratch, binDir string, dirs []directive, seed uint64, idx int, 
 						"VERIF_MAP_STATS=" + stats,
 						"GOMAXPROCS=" + strconv.Itoa(res.procs),
 						"GOFLAGS=-mod=mod", "GOPROXY=off", "GOSUMDB=off", "GOTOOLCHAIN=local",
+						"PWD=" + filepath.Join(route, d.Dir),
 					}
-					out, err := run(filepath.Join(B, d.Dir), env, filepath.Join(binDir, d.Gen))
+					out, err := run(filepath.Join(route, d.Dir), env, filepath.Join(binDir, d.Gen))
 					mu.Lock()
 					res.execs++
 					mu.Unlock()
@@ -225,7 +323,12 @@ func c13OneSeed(scratch, binDir string, dirs []directive, seed uint64, idx int, 
 				if pass == 0 {
 					g, _ := generatedFiles(B)
 					mu.Lock()
-					gen = g
+					if gen == nil {
+						gen = map[string]bool{}
+					}
+					for f := range g { // union: fixture outputs exist only in the chunk that generated them
+						gen[f] = true
+					}
 					filepath.Walk(B, func(p string, info os.FileInfo, err error) error {
 						if err == nil && !info.IsDir() && info.ModTime().After(old.Add(time.Hour)) {
 							rel, _ := filepath.Rel(B, p)
@@ -235,7 +338,20 @@ func c13OneSeed(scratch, binDir string, dirs []directive, seed uint64, idx int, 
 					})
 					mu.Unlock()
 				}
-				out, err := run("/", nil, "diff", "-r", "-u", "--exclude=.git", repoRoot, B)
+				hasFix := false
+				for _, i := range chunks[c] {
+					hasFix = hasFix || dirs[i].Fixture
+				}
+				if hasFix {
+					mu.Lock()
+					res.fixOut = append(res.fixOut, fixtureOutput(B))
+					mu.Unlock()
+				}
+				dargs := []string{"-r", "-u", "--exclude=.git"}
+				for _, name := range fixtureNames() {
+					dargs = append(dargs, "--exclude="+name)
+				}
+				out, err := run("/", nil, "diff", append(dargs, repoRoot, B)...)
 				if err != nil && out != "" {
 					mu.Lock()
 					if res.diff == "" {
@@ -342,6 +458,13 @@ func cmdC13(args []string) {
 	if err != nil || len(dirs) == 0 {
 		die2("no go:generate directives found: %v", err)
 	}
+	for _, name := range fixtureNames() {
+		if _, err := os.Stat(filepath.Join(repoRoot, fixtureRoot, name)); err == nil {
+			die2("the repository already has a directory %s/%s: rename the fixture", fixtureRoot, name)
+		}
+	}
+	nRepoDirs := len(dirs)
+	dirs = append(dirs, fixtureDirectives()...)
 	results := make([]c13seedResult, n)
 	var wg sync.WaitGroup
 	sem := make(chan struct{}, 4)
@@ -373,7 +496,20 @@ func cmdC13(args []string) {
 		fmt.Printf("VIOLATION property=C13 replay=%s\n", path)
 	}
 	seen := map[string]bool{}
+	fixRef, fixRuns, viaLink := "", 0, 0
 	for _, r := range results {
+		viaLink += r.viaLink
+		for k, fo := range r.fixOut {
+			fixRuns++
+			if fixRef == "" {
+				fixRef = fo
+			}
+			if fo != fixRef && !seen["fixture"] {
+				seen["fixture"] = true
+				report(r, "fixture-output-differs", fmt.Sprintf("the generators' output for the fixture packages %v differs between runs on the same input (seed %d pass %d against the first run):\n%s",
+					fixtureNames(), r.seed, k+1, head(diffText(fixRef, fo), 6000)))
+			}
+		}
 		execs += r.execs
 		permuted += r.permuted
 		iters += r.iterTotal
@@ -426,14 +562,18 @@ func cmdC13(args []string) {
 			"samples":                     samples,
 			"exhaustive":                  false,
 			"seeds":                       n,
-			"directives":                  len(dirs),
+			"directives":                  nRepoDirs,
+			"fixture_directives":          len(dirs) - nRepoDirs,
+			"fixture_packages":            fixtureNames(),
+			"fixture_outputs_compared":    fixRuns,
+			"chunks_run_through_a_symlinked_checkout": viaLink,
 			"map_iterations":              iters,
 			"map_iterations_permuted":     permuted,
 			"gomaxprocs_values":           []int{1, 4, 16},
 			"simulated_time":              "none",
 			"real_components":             []string{"cmd/gombok", "internal/generator/template_gen", "internal/generator/monad_gen", "genfp, metafp and every fp package they use (built from the rewritten copy)"},
 			"stubbed_components":          []string{"Go map iteration order inside the generators (seeded permutation)", "GOMAXPROCS"},
-			"faults_fired":                map[string]int{"map-iteration-permuted": permuted},
+			"faults_fired":                map[string]int{"map-iteration-permuted": permuted, "checkout-reached-through-symlink": viaLink},
 			"generated_files_in_the_tree": countGenerated(),
 		},
 	}
@@ -449,6 +589,30 @@ func cmdC13(args []string) {
 	if nViol > 0 {
 		os.Exit(1)
 	}
+}
+
+// diffText shows the first differing lines of two texts.
+func diffText(a, b string) string {
+	la, lb := strings.Split(a, "\n"), strings.Split(b, "\n")
+	var sb strings.Builder
+	n := 0
+	for i := 0; i < len(la) || i < len(lb); i++ {
+		var x, y string
+		if i < len(la) {
+			x = la[i]
+		}
+		if i < len(lb) {
+			y = lb[i]
+		}
+		if x != y {
+			fmt.Fprintf(&sb, "line %d:\n- %s\n+ %s\n", i+1, x, y)
+			n++
+			if n >= 40 {
+				break
+			}
+		}
+	}
+	return sb.String()
 }
 
 func countGenerated() int {
